@@ -277,3 +277,21 @@ def rule_digest_words(chk, P, rid='P5'):
                         n = int(cf.evalc(a[2]))
                         r.check(n == DIGEST_WORDS[ks[0]], '%s:%d' % (f.name, ks[0]), ev['loc'],
                                 '%s writes %d digest words for sha_type %d; the digest of that variant has %d words' % (f.name, n, ks[0], DIGEST_WORDS[ks[0]]))
+
+
+def rule_asm_pad_threshold(chk, rid='P6', floor=1):
+    """the same layout rule for padding written in assembly: the 0x80 marker sits at offset r of the block (the number of tail bytes), the
+    big-endian bit length at offset L (56 of a 64-byte block); the branch that goes on to store the length WITHOUT first compressing the block
+    must be taken exactly for r + 1 <= L.  Read from the object code: the marker store, the register the copy loop left equal to its index,
+    the compare-and-branch on that register, and which edge reaches the length store before any call."""
+    from .. import insnscan
+    r = chk.rule(rid, 'assembly padding: the branch that stores the message length into the block that already holds the 0x80 marker at offset r is '
+                      'taken exactly when r + 1 <= L (L = offset of the length field), i.e. `cmp r, L; jb` or an equivalent form', floor=floor)
+    for rel, fs in sorted(insnscan.pad_thresholds().items()):
+        for f in fs:
+            r.check(f['rmax'] == f['L'] - 1, '%s:%s' % (rel, f['fn']), rel,
+                    '%s (%s): marker `%s`, then `%s`: the length field at block offset %d is written without a further compression for marker '
+                    'offsets up to %s, but a marker at offset %d leaves no room for it (and one at %d does)' % (
+                        f['fn'], rel, ' '.join(f['marker'].split()), ' '.join(f['test'].split()), f['L'],
+                        f['rmax'] if f['rmax'] is not None else 'the top of the block', f['L'], f['L'] - 1))
+    return r
